@@ -2,11 +2,14 @@ package main
 
 import (
 	"fmt"
+	"github.com/netflix/rend/handlers/memcached/cluster"
+	"io"
 	"math/rand"
 	"net"
 	"strings"
 	"sync"
 	"time"
+	"verif/fakemc"
 
 	"verif/evid"
 	"verif/harness"
@@ -297,6 +300,54 @@ func checkC15(tier, replay string) int {
 					}
 				}
 			}
+			// a client that leaves after the backend refused part of one of its writes (the
+			// handler's error path may have re-established its backend connection)
+			if perConn && jb.port == 0 && violations < 4 {
+				for round, closeKind := range []string{"close", "reset", "half-close"} {
+					cl, err := p.Dial(jb.port, jb.binary)
+					if err != nil {
+						break
+					}
+					acc0 := p.L1.Accepted()
+					deadline := time.Now().Add(10 * time.Second)
+					for p.L1.OpenConns() <= baseL1 && p.L1.Accepted() <= acc0 && time.Now().Before(deadline) {
+						time.Sleep(200 * time.Microsecond)
+					}
+					cl.Watchdog = 10 * time.Second
+					for _, idx := range []uint64{1, 2} {
+						p.L1.ArmFaults(map[uint64]fakemc.Fault{idx: {Kind: fakemc.FaultStatus, Status: 0x82}})
+						cl.Do(wire.Cmd{Op: "set", Key: fmt.Sprintf("refused%d", round), Value: makeValue(uint32(8000+round), 3000), Flags: 1, Opaque: 0x700 + uint32(idx)})
+						p.L1.DisarmFaults()
+					}
+					cl.Do(wire.Cmd{Op: "get", Keys: []string{"ka"}, Opaque: 0x710})
+					switch closeKind {
+					case "reset":
+						if tc, ok := cl.Conn.(*net.TCPConn); ok {
+							tc.SetLinger(0)
+						}
+						cl.Close()
+					case "half-close":
+						if cw, ok := cl.Conn.(interface{ CloseWrite() error }); ok {
+							cw.CloseWrite()
+						}
+						cl.Conn.SetReadDeadline(time.Now().Add(5 * time.Second))
+						io.Copy(io.Discard, cl.Conn)
+						cl.Close()
+					default:
+						cl.Close()
+					}
+					run.Eval(1)
+					run.Count("disconnects", 1)
+					run.Count("disconnects_after_a_refused_write", 1)
+					run.Distinct(fmt.Sprintf("%s|after-refusal|%s", what, closeKind))
+					if !p.WaitBackendConns(baseL1, baseL2, 25*time.Second) {
+						run.Violation(fmt.Sprintf("%s|after a refused write|%s|backend connection still open after the client disconnected", what, closeKind), map[string]interface{}{
+							"config": jb.cfg, "l1_open": p.L1.OpenConns(), "l2_open": p.L2.OpenConns(), "baseline_l1": baseL1, "baseline_l2": baseL2})
+						violations++
+						break
+					}
+				}
+			}
 			// all clients are gone: no goroutine may still serve a connection
 			time.Sleep(50 * time.Millisecond)
 			var dump string
@@ -327,6 +378,7 @@ func checkC15(tier, replay string) int {
 		}(ji, jb)
 	}
 	wg.Wait()
+	c15HandlerClose(run)
 	run.Floor("disconnects", 500)
 	run.Floor("goroutine_dumps_inspected", 4)
 	return run.Finish()
@@ -337,4 +389,59 @@ func maxInt(a, b int) int {
 		return a
 	}
 	return b
+}
+
+// c15HandlerClose: what the server does for a departing client is Close() on its backend
+// handles; for every handler kind that call must end every backend connection the handle owns
+// (the cluster handle owns one per node).
+func c15HandlerClose(run *evid.Run) {
+	for _, nodes := range []int{1, 2, 3, 5} {
+		var stores []*fakemc.Store
+		var srvs []*fakemc.Server
+		var addrs []string
+		for i := 0; i < nodes; i++ {
+			st := fakemc.NewStore(fmt.Sprintf("node%d", i))
+			srv, err := fakemc.Listen(st, "tcp", "127.0.0.1:0")
+			if err != nil {
+				run.Inconclusive("cannot listen: " + err.Error())
+				return
+			}
+			stores, srvs, addrs = append(stores, st), append(srvs, srv), append(addrs, srv.Addr)
+		}
+		h, err := cluster.NewHandler(addrs, "c15")
+		if err != nil {
+			run.Inconclusive("cluster.NewHandler: " + err.Error())
+			return
+		}
+		for i := 0; i < 20; i++ {
+			handlerExec(h, wire.Cmd{Op: "set", Key: fmt.Sprintf("cl%d", i), Value: []byte("v")}, 0)
+		}
+		h.Close()
+		deadline := time.Now().Add(10 * time.Second)
+		open := func() []int {
+			var o []int
+			for _, st := range stores {
+				o = append(o, st.OpenConns())
+			}
+			return o
+		}
+		sum := func(a []int) (n int) {
+			for _, x := range a {
+				n += x
+			}
+			return
+		}
+		for sum(open()) > 0 && time.Now().Before(deadline) {
+			time.Sleep(5 * time.Millisecond)
+		}
+		run.Eval(1)
+		run.Count("handler_closes", 1)
+		run.Distinct(fmt.Sprintf("close|cluster|%d", nodes))
+		if o := open(); sum(o) > 0 {
+			run.Violation("cluster handler|Close|backend connection still open after the client's handle was closed", map[string]interface{}{"nodes": nodes, "open_connections_per_node": o})
+		}
+		for _, s := range srvs {
+			s.Close()
+		}
+	}
 }
